@@ -2,7 +2,7 @@
    Print Assumptions.  S, w, th range over ALL worlds (arbitrary effects of
    identifier reads, property get/set/delete, calls and operators on an
    arbitrary user state) and all values of this. *)
-From V Require Import Common.Base C05.Syntax C05.Sem C05.Lower C05.Frame C05.LowerProofs C05.SimLogic C05.Steps C05.Compose C05.Visit C05.Chain C05.Witness.
+From V Require Import Common.Base C05.Syntax C05.Sem C05.Lower C05.Frame C05.LowerProofs C05.SimLogic C05.Steps C05.Compose C05.Visit C05.Chain C05.Chain2 C05.Above C05.Visit2 C05.Witness.
 
 (* An evaluation reads and writes only the temporaries that occur in the
    expression: fresh temporaries cannot be observed by, or interfere with, any
@@ -240,11 +240,98 @@ Theorem optional_callee_producer_single :
 Proof. exact producer_single. Qed.
 Print Assumptions optional_callee_producer_single.
 
-(* NOT PROVED (modelled and tied by correspondence only): optional calls whose
-   callee chain itself starts with a call (a.b?.().c?.()), call-start chains under
-   delete, and the composition of chain lowering with the visitor theorem (the
-   chain theorems take the already-lowered pieces as given).  (a?.b)(args) is
-   refuted (F4). *)
+(* WHOLE-VISITOR THEOREM WITH OPTIONAL CHAINS.  src2 F C e extends src to
+   optional-chain links anywhere in the tree (in starts, keys, arguments,
+   assignment right-hand sides, nested chains, under delete, chains that start
+   with a call a.b?.(x).c, f()?.(x)[k] ...).  A chain fragment is carried
+   through the induction with lowered pieces, its root applies
+   lowerOptionalChain, and the result is composed with the surrounding
+   lowerings.  Side conditions of src2, each tied to a refutation or to the
+   item below:
+     - a call whose callee is a chain ending in a member access is excluded:
+       (a?.b)(x) is refuted (F4); a?.b?.(x) needs the this value of the inner
+       chain - proved per step (lower_optional_call_over_member_equiv,
+       optional_chain_root_explicit_this), not yet composed;
+     - the callee of an optional call is not a foldable "null ?? a.b" (F6);
+     - identifiers that esbuild duplicates are constant bindings (F1-F3b). *)
+Theorem lower_sound_chains :
+  forall (S : Type) (w : world S) (th : val),
+    binop_nonnull S w -> del_nonnull S w -> call_intact S w ->
+    forall (F : feat) (C : Z -> Prop), (forall x, C x -> const_var S w x) ->
+    forall e, src2 F C e ->
+    forall m s, observe (eval w th (lower F e) m s) = observe (eval w th e m s).
+Proof. exact lower_sound2. Qed.
+Print Assumptions lower_sound_chains.
+
+(* The general account of lowerOptionalChain behind it (Chain2.v), for every
+   list of links, every way the start is lowered [StartPost: plain capture,
+   captured object of a member callee, or a callee chain that was lowered first
+   and left its this in a temporary], with or without the capture for the
+   parent's this (TStore: storeThisArgForParentOptionalChain) and under delete
+   (TDelete).  This covers a.b?.().c?.() (call-start producer) and
+   delete a.b?.().c (call-start chain under delete) at the per-step level. *)
+Theorem optional_chain_root_plain_this :
+  forall (S : Type) (w : world S) (th : val) (L : tpred) F e0 i childOut n start ls swc first again n3
+         (cS : M S out) (isdel : bool),
+    flatten e0 = Some (start, (if isdel then ls ++ [LDelete] else ls), swc) ->
+    is_delete e0 = isdel -> (isdel = true -> ends_with_access e0 = false) ->
+    start <> ENull -> start <> EUndef -> f_optchain F = true ->
+    step2 swc (thisArg childOut) start n = (start, None, n) ->
+    capture start n = (first, again, n3) ->
+    simM S L (fun _ => True) (StartPost S w th ls again None) (eval w th first) cS -> robust S w th L n3 again ->
+    ls <> [] -> links_fresh L ls -> no_delete ls -> L n3 ->
+    let store := storeThis i && ends_with_access e0 in
+    let md := mode_of isdel store in
+    (md = TStore -> member_link (last ls LDelete)) ->
+    (md = TDelete -> exists pre l, ls = pre ++ [l] /\ member_link l) ->
+    simM S L (fun _ => True) (PostR S w th md (thisArg (snd (fst (lowerOptionalChain F e0 i childOut n)))))
+         (eval w th (fst (fst (lowerOptionalChain F e0 i childOut n))))
+         (bind cS (fun r => if nullish (valof r) then ret (if isdel then ov (VBool true) else OShort)
+                            else tail_run S w th md ls r)).
+Proof. exact loc_sound_none. Qed.
+Print Assumptions optional_chain_root_plain_this.
+
+Theorem optional_chain_root_explicit_this :
+  forall (S : Type) (w : world S) (th : val) (L : tpred) F e0 i childOut n start args rest swc start2 t n2
+         first again n3 (cS : M S out) (isdel : bool),
+    flatten e0 = Some (start, (if isdel then (LCall args :: rest) ++ [LDelete] else LCall args :: rest), swc) ->
+    is_delete e0 = isdel -> (isdel = true -> ends_with_access e0 = false) ->
+    start <> ENull -> start <> EUndef -> f_optchain F = true ->
+    step2 swc (thisArg childOut) start n = (start2, Some t, n2) ->
+    capture start2 n2 = (first, again, n3) ->
+    simM S L (fun _ => True) (StartPost S w th (LCall args :: rest) again (Some t)) (eval w th first) cS ->
+    robust S w th L n3 again -> robust S w th L n3 t -> call_intact S w ->
+    links_fresh L (LCall args :: rest) -> no_delete rest -> L n3 ->
+    let store := storeThis i && ends_with_access e0 in
+    let md := mode_of isdel store in
+    (md = TStore -> rest <> [] /\ member_link (last rest LDelete)) ->
+    (md = TDelete -> exists pre l, rest = pre ++ [l] /\ member_link l) ->
+    simM S L (fun _ => True) (PostR S w th md (thisArg (snd (fst (lowerOptionalChain F e0 i childOut n)))))
+         (eval w th (fst (fst (lowerOptionalChain F e0 i childOut n))))
+         (bind cS (fun r => if nullish (valof r) then ret (if isdel then ov (VBool true) else OShort)
+                            else tail_run S w th md (LCall args :: rest) r)).
+Proof. exact loc_sound_some. Qed.
+Print Assumptions optional_chain_root_explicit_this.
+
+(* a callee chain that was lowered first hands its this over to the call *)
+Theorem optional_chain_start_from_lowered_callee :
+  forall (S : Type) (w : world S) (th : val) (L : tpred) ls lowP P' t n2,
+    simM S L (fun _ => True) (PostR S w th TStore (Some t)) (eval w th lowP) (eval w th P') ->
+    robust S w th L n2 t -> L n2 ->
+    simM S L (fun _ => True) (StartPost S w th ls (ETmp n2) (Some t)) (eval w th (EAssign (ETmp n2) lowP)) (eval w th P').
+Proof. exact start_producer. Qed.
+Print Assumptions optional_chain_start_from_lowered_callee.
+
+(* every temporary visit creates from counter n on is numbered >= n *)
+Theorem visit_temporaries_above :
+  forall F e lo i n, above lo e -> lo <= n -> vres lo n (visit F i e n).
+Proof. exact visit_above. Qed.
+Print Assumptions visit_temporaries_above.
+
+(* NOT PROVED: the composition of the this-passing case (a?.b?.(x), a.b?.().c?.())
+   with the visitor theorem (all per-step ingredients above are proved; the
+   induction needs the lowered callee's own temporaries to be tracked across
+   the arguments), the minifySyntax output shapes, private names. *)
 
 (* The full statement of the property - for every world, feature set and
    temporary-free source expression the lowered tree behaves like the source -
